@@ -945,6 +945,8 @@ def is_strictness_fulfilled(
     True
     """
     assert results is not None
+    if strictness is None:
+        strictness = ""
     if np.isnan(results.ofv):
         return False
     elif strictness == "":
